@@ -614,7 +614,7 @@ pub fn run(ctx: &Ctx) -> i32 {
     explore(ctx, "comment / metadata strings: 9 placements x 24 strings (in-process + CLI files)", StringsSpace { bases, strs: strings() }, C17 { cli: true }, shared.clone());
     let mut al = alpha::flow(2, &[0, 100, 300], Rich::Base);
     al.extend(extra_letters());
-    let d = if ctx.quick() { 2 } else { 3 };
+    let d = if ctx.quick() { 3 } else { 4 };
     explore(ctx, &format!("FLOW + demands/aux/outputs/large values, depth<={d} (in-process)"), Wide { alphabet: al, bases: alpha::bases(false), max_add: d, repeat: false }, C17 { cli: false }, shared.clone());
     explore(ctx, "shipped files + <=1 line (in-process + CLI files)", Wide { alphabet: alpha::seeded_letters(), bases: alpha::shipped_bases(), max_add: if ctx.quick() { 0 } else { 1 }, repeat: false }, C17 { cli: true }, shared.clone());
     finish(
